@@ -1126,6 +1126,12 @@ fn run_c13_verbatim_real(seed: u64, rep: &mut RealReport) {
     // (in ONE shell `set -e` outlives its test case: the next failing command ends the script,
     // which is the mode's nature and not a matter of verbatim delivery)
     cases.retain(|c| !(c.script_mode && c.exprs.len() > 1 && c.exprs.iter().any(|e| e.contains("set -e"))));
+    // (the reference runs every expression in a shell of its own: an expression that changes what
+    // LATER ones do - IFS, shell options, the directory - may only stand last. With VERIF_SEED=1
+    // `IFS=0123456789` was drawn in front of `echo $((x*2))`, whose `10` then - rightly, the
+    // state carries - came out as a blank: a false alarm of this lane, found by `vp check`.)
+    let changes_later_ones = |e: &str| e.contains("IFS=") || e.contains("set -") || e.contains("unset ") || e.contains("cd /") || e.contains("rm -rf");
+    cases.retain(|c| c.exprs.iter().enumerate().all(|(i, e)| i + 1 == c.exprs.len() || !changes_later_ones(e)));
     let _ = std::fs::create_dir_all(format!("{}/replays", crate::out_dir()));
     let mut reported = 0;
     for c in &cases {
